@@ -135,6 +135,92 @@ theorem buildDirectiveA (d : DirectiveD) :
   have ha := mapM_map_congr (argToDefA s c apps ("@" ++ d.name)) (argToDef s) (buildArgument (docEnvA s c apps))
     (buildArgument (docEnv s)) d.args (fun a _ => buildArgumentA s c apps _ a)
   simp only [buildDirective, directiveToDefA, directiveToDef, ha]
+/-! ### the re-entrant thunk guard -/
+
+theorem thunkNeeds_congrA : ∀ fuel : Nat,
+    (∀ lit ty, thunkNeeds (docEnvA s c apps) fuel lit ty = thunkNeeds (docEnv s) fuel lit ty) ∧
+    (∀ items t, thunkNeedsList (docEnvA s c apps) fuel items t = thunkNeedsList (docEnv s) fuel items t) ∧
+    (∀ given path (l : List ArgD), thunkNeedsFields (docEnvA s c apps) fuel given (l.map (argToDefA s c apps path)) =
+      thunkNeedsFields (docEnv s) fuel given (l.map (argToDef s))) := by
+  intro fuel
+  induction fuel with
+  | zero => exact ⟨fun _ _ => rfl, fun _ _ => rfl, fun _ _ _ => rfl⟩
+  | succ k ih =>
+    obtain ⟨i1, i2, i3⟩ := ih
+    refine ⟨?_, ?_, ?_⟩
+    · intro lit ty
+      cases ty with
+      | nonNull t => simp only [thunkNeeds, i1]
+      | list t => cases lit <;> simp only [thunkNeeds, i1, i2]
+      | named n =>
+        cases lit <;> simp only [thunkNeeds, docEnvA_findAdditional, docEnv_findAdditional, docEnvA_findDef, docEnv_findDef]
+        cases hft : s.findType n with
+        | none => rfl
+        | some t =>
+          simp only [Option.map_some]
+          have hk : (typeToDefA s c apps t).kind = (typeToDef s t).kind := rfl
+          rw [hk]
+          simp only [typeToDefA, typeToDef, i3]
+          rfl
+    · intro items t
+      cases items with
+      | nil => rfl
+      | cons x xs => simp only [thunkNeedsList, i1, i2]
+    · intro given path l
+      cases l with
+      | nil => rfl
+      | cons f fs =>
+        simp only [List.map_cons, thunkNeedsFields, i3, i1]
+        rfl
+
+theorem thunkEdgesA (t : TypeD) : thunkEdges (docEnvA s c apps) (typeToDefA s c apps t) = thunkEdges (docEnv s) (typeToDef s t) := by
+  simp only [thunkEdges, typeToDefA, typeToDef, List.flatMap_map, (thunkNeeds_congrA s c apps coerceFuel).1]
+  rfl
+
+theorem thunkReachA (target : String) : ∀ (fuel : Nat) (n : String),
+    thunkReach (docEnvA s c apps) target fuel n = thunkReach (docEnv s) target fuel n
+  | 0, _ => rfl
+  | k + 1, n => by
+    simp only [thunkReach, docEnvA_findDef, docEnv_findDef]
+    cases s.findType n with
+    | none => rfl
+    | some t =>
+      simp only [Option.map_some, thunkEdgesA]
+      congr 1
+      funext m
+      rw [thunkReachA target k m]
+
+theorem hasThunkCycleA : hasThunkCycle (docEnvA s c apps) (s.types.map (typeToDefA s c apps)) =
+    hasThunkCycle (docEnv s) (s.types.map (typeToDef s)) := by
+  simp only [hasThunkCycle, List.any_map, List.length_map, Function.comp_def, docEnvA_findAdditional, docEnv_findAdditional]
+  congr 1
+  funext t
+  have hk : (typeToDefA s c apps t).kind = (typeToDef s t).kind := rfl
+  have hn : (typeToDefA s c apps t).name = (typeToDef s t).name := rfl
+  rw [hk, hn, thunkReachA]
+
+/-! ### the parts of the document -/
+
+theorem typeDefs_A : typeDefs (schemaToDocA s c apps) = s.types.map (typeToDefA s c apps) := by
+  unfold schemaToDocA typeDefs
+  split <;> simp [List.filterMap_append, List.filterMap_map, Function.comp_def]
+
+theorem dirDefs_A : dirDefs (schemaToDocA s c apps) = s.directives.map (directiveToDefA s c apps) := by
+  unfold schemaToDocA dirDefs
+  split <;> simp [List.filterMap_append, List.filterMap_map, Function.comp_def]
+
+theorem typeExts_A : typeExts (schemaToDocA s c apps) = [] := by
+  unfold schemaToDocA typeExts
+  split <;> simp [List.filterMap_append, List.filterMap_map, Function.comp_def]
+
+theorem schemaExtensions_A : schemaExtensions (schemaToDocA s c apps) = [] := by
+  unfold schemaToDocA schemaExtensions
+  split <;> simp [List.filterMap_append, List.filterMap_map, Function.comp_def]
+
+theorem schemaDefs_A : schemaDefs (schemaToDocA s c apps) =
+    if needsSchemaBlockA s c apps then [{ ops := rootOps s, dirs := keptAt c apps "" }] else [] := by
+  unfold schemaToDocA schemaDefs
+  split <;> simp [List.filterMap_append, List.filterMap_map, Function.comp_def]
 end
 
 end PyGql.Props.C12
